@@ -38,7 +38,7 @@ EVIDENCE_DIR = os.path.join(VERIF, "evidence")
 REPLAY_DIR = os.path.join(VERIF, "replays")
 KNOWN = os.path.join(VERIF, "known_findings.json")
 
-TIER_TIMEOUT = {"quick": 420, "thorough": 2400}      # per harness, seconds
+TIER_TIMEOUT = {"quick": 600, "thorough": 2400}      # per harness, seconds
 MEM_LIMIT_KB = int(os.environ.get("VERIF_CBMC_MEM_GB", "12")) * 1024 * 1024   # per cbmc process (RSS, watchdog)
 
 REUSABLE_MODEL = r'''
